@@ -67,7 +67,8 @@ def base(draw, integer=False, gridders=GRIDDERS, min_n=4):
         m = draw(st.integers(1, 10))
         query = [[draw(st.integers(-1, side)), draw(st.integers(-1, side))] for _ in range(m)]
     else:
-        cloud = draw(gen.clouds(min_n=min_n, max_n=25, max_exp=4, ratios=[0.0, 0.0, 1.0, -10.0, 100.0]))
+        # (survey lines and sorted storage; exact grids are left out here: their equidistant neighbours make k-nearest and triangulated results depend on the point order)
+        cloud = draw(gen.clouds(min_n=min_n, max_n=25, max_exp=4, ratios=[0.0, 0.0, 1.0, -10.0, 100.0], structures=["lines_ns", "lines_we", "sorted_n", "sorted_e_desc"]))
         n = len(cloud["cells"])
         kind = draw(st.sampled_from(["unit", "int", "big", "mixed"]))
         data = [draw(gen.data_values(n, kind)) for _ in range(2)]
